@@ -286,6 +286,29 @@ fn reset_faults(pre: &Machine, scn: &Scn, known: &Known, at: (usize, u32), ctx: 
     }
     hidden_state(&c, construct(pre, true, known), at, "master_reset", ctx)?;
 
+    // ---- master reset issued on the bus (public `Bus::master_reset`): the bus-side part of the same rule
+    {
+        let mut c = pre.clone();
+        let _ = c.raw_mut().bus_mut().master_reset();
+        ctx.cov.fault("RST-MASTER(bus)");
+        for a in 0xFC..=0xFFu8 {
+            if c.bus().read(a) != 0 {
+                return Err(v("master-reset-clears", at, format!("Bus::master_reset: input register 0x{:02X} = 0x{:02X} not cleared", a, c.bus().read(a))));
+            }
+        }
+        let b = c.bus().board();
+        if *b.digital_output1() != 0 || *b.digital_output2() != 0 || b.daicr().bits() != 0 || b.uio_dir().iter().any(|d| *d) {
+            return Err(v(
+                "master-reset-clears",
+                at,
+                format!("Bus::master_reset: board outputs {:02X}/{:02X}, interrupt control 0x{:02X}, UIO directions {:?} not cleared", b.digital_output1(), b.digital_output2(), b.daicr().bits(), b.uio_dir()),
+            ));
+        }
+        if c.bus().memory() != pre.bus().memory() {
+            return Err(v("reset-untouched", at, "Bus::master_reset: RAM changed".into()));
+        }
+    }
+
     // ---- RELOAD ----
     let mut c = pre.clone();
     c.load(scn.follow.bytecode());
@@ -503,7 +526,10 @@ fn program(rng: &mut Rng) -> Image {
         }
     };
     let bytes = odd_length(rng, bytes);
-    Image { bytes, stack: if rng.chance(1, 8) { 99 } else { stack }, limit: if rng.bool() { Some(0xFF) } else { None }, keep_limit: rng.chance(1, 8) }
+    // sometimes a declared program size smaller than the image (code and data behind the limit are
+    // still part of the image that load has to copy)
+    let limit = if rng.chance(1, 6) && !bytes.is_empty() { Some(rng.below(bytes.len() as u64) as u8) } else if rng.bool() { Some(0xFF) } else { None };
+    Image { bytes, stack: if rng.chance(1, 8) { 99 } else { stack }, limit, keep_limit: rng.chance(1, 8) }
 }
 
 /// image-length extremes: empty, one or two bytes, exactly filling RAM
@@ -520,7 +546,8 @@ fn follow_up(rng: &mut Rng) -> Image {
     let o = HazardOpts { len: 6 + rng.usize(40), wild: false, run_into_io: false, with_ei: false, irq: None };
     let bytes = gen::hazard_program(rng, o);
     let bytes = odd_length(rng, bytes);
-    Image { bytes, stack: *rng.pick(&[0u8, 16, 32, 48, 64, 16, 99]), limit: if rng.bool() { Some(0xFF) } else { None }, keep_limit: rng.chance(1, 6) }
+    let limit = if rng.chance(1, 6) && !bytes.is_empty() { Some(rng.below(bytes.len() as u64) as u8) } else if rng.bool() { Some(0xFF) } else { None };
+    Image { bytes, stack: *rng.pick(&[0u8, 16, 32, 48, 64, 16, 99]), limit, keep_limit: rng.chance(1, 6) }
 }
 
 impl Check for C07 {
